@@ -190,6 +190,24 @@ func readervecMain(args []string) int {
 			}
 		}
 	}
+	// a pipe is a conforming reader too (and an *os.File that is not a regular file)
+	for _, payload := range filePayloads {
+		for _, lim := range []int{0, 7, 3072} {
+			mimetype.SetLimit(uint32(lim))
+			pr, pw, err := os.Pipe()
+			if err != nil {
+				break
+			}
+			go func() { pw.Write(payload); pw.Close() }()
+			got, gerr := mimetype.DetectReader(pr)
+			pr.Close()
+			want := mimetype.Detect(exact(payload))
+			n++
+			if gerr != nil || got.String() != want.String() {
+				rep.violate(Violation{Property: "C05", Kind: "pipe-differs-from-bytes", Text: fmt.Sprintf("%q limit %d", payload, lim), Limit: int64(lim), Detail: fmt.Sprintf("DetectReader(pipe)=%s err=%v Detect=%s", got, gerr, want), Key: fmt.Sprintf("C05|pipe|%x|%d", payload, lim)})
+			}
+		}
+	}
 	// file errors
 	for _, p := range []string{filepath.Join(tmp, "missing"), tmp} {
 		got, gerr := mimetype.DetectFile(p)
